@@ -460,6 +460,15 @@ func (v *VM) Load(progs []asm.Insns, o Options) {
 	}
 }
 
+// Programs returns the installed sub-programs' names (number of sub-programs = len).
+func (v *VM) Programs() []string {
+	var out []string
+	for _, p := range v.polj {
+		out = append(out, p.Name)
+	}
+	return out
+}
+
 // Run executes the entry program on one packet state.
 func (v *VM) Run(ps PacketState, o Options) (Result, *bpfvm.Fault) {
 	copy(v.state.Entries[0], ps.Image())
